@@ -124,17 +124,27 @@ def r11_2(ctx):
     # stores into the result vector: index_mut on Vec<Option<LazyValue>>
     ims = [(b, t) for b, t in f.calls() if callee_is(t, "index_mut") and "LazyValue" in " ".join(t.get("rgargs") or t.get("gargs") or [])]
     ctx.floor("R11.2", "stores into result slots", len(ims), 1)
-    tests = [(b, t) for b, t in f.calls() if callee_is(t, "is_none") and "LazyValue" in " ".join(t.get("rgargs") or t.get("gargs") or [])]
+    from ..analysis import option_test_edges
     guard = None
-    for b, t in tests:
-        a = op_local(t["args"][0])
-        sl, leaves = backward_slice(f, [a]) if a is not None else (set(), [])
-        idx = [lf for lf in leaves if lf[0] == "call" and callee_is(lf[2], "index") and "usize" in (lf[2].get("rgargs") or lf[2].get("gargs") or [""])[0]]
-        first = any(op_int(lf[2]["args"][1]) == 0 for lf in idx if len(lf[2]["args"]) > 1)
-        from_order = any(lf[0] == "place" and [e[2] for e in lf[1][1] if isinstance(e, list) and e[0] == "."][-1:] == ["order"] for lf in leaves)
-        e = bool_switch_edges(f, t["dest"][0])
-        if first and from_order and e and e[0] != e[1]:
-            guard = (b, t, e)
+    for b, t, t_edge, f_edge, clo in option_test_edges(prog, f, ("is_none",)):
+        if clo is None:
+            if "LazyValue" not in " ".join(t.get("rgargs") or t.get("gargs") or []):
+                continue
+            a = op_local(t["args"][0])
+            sl, leaves = backward_slice(f, [a]) if a is not None else (set(), [])
+            idx = [lf for lf in leaves if lf[0] == "call" and callee_is(lf[2], "index") and "usize" in (lf[2].get("rgargs") or lf[2].get("gargs") or [""])[0]]
+            first = any(op_int(lf[2]["args"][1]) == 0 for lf in idx if len(lf[2]["args"]) > 1) or any(lf[0] == "call" and callee_is(lf[2], "first") for lf in leaves)
+            from_order = any(lf[0] == "place" and [e[2] for e in lf[1][1] if isinstance(e, list) and e[0] == "."][-1:] == ["order"] for lf in leaves)
+        else:
+            # opt.is_some_and(|first| out[*first].is_none()) with opt = node.order.first()
+            a = op_local(t["args"][0])
+            sl, leaves = backward_slice(f, [a]) if a is not None else (set(), [])
+            first = any(lf[0] == "call" and callee_is(lf[2], "first", "get") for lf in leaves)
+            from_order = any(lf[0] == "place" and [e[2] for e in lf[1][1] if isinstance(e, list) and e[0] == "."][-1:] == ["order"] for lf in leaves)
+            inner = [tt for bb, tt in clo.calls() if callee_is(tt, "is_none") and "LazyValue" in " ".join(tt.get("rgargs") or tt.get("gargs") or [])]
+            first = first and bool(inner)
+        if first and from_order:
+            guard = (b, t, (t_edge, f_edge))
     ctx.ob("R11.2", "first-wins:test-present", guard is not None, f.loc(), "get_many_rec tests out[order[0]].is_none() before filling the slots of a node" if guard else
            "no test that the node's first slot is still empty: a member name that occurs twice overwrites the first result and is counted twice")
     if guard is None:
